@@ -424,6 +424,8 @@ def decide_and_report(chk, replay_mode=False):
 
 
 def run_check(cfg, tier, seed, replay=None):
+    if not replay:
+        shutil.rmtree(os.path.join(VERIF, "replays", cfg["id"]), ignore_errors=True)
     chk = Check(cfg, tier, seed)
     chk.regen_and_prove()
     chk.build_harness()
